@@ -206,34 +206,75 @@ func runFSO(cfg config) {
 		um := r.pick2([]int{0o22, 0o22, 0, 0o77, 0o27})
 		hdr := fmt.Sprintf("memfs linux %d md5", um)
 		w := newFSWorld("memfs", "linux", um)
-		g := &fsGen{r: r, w: w, admin: mode != "dac", nviews: 1, single: true, clean: true, noEval: true}
+		g := &fsGen{r: r, w: w, admin: mode != "dac", nviews: 1, single: true, clean: true, noEval: true, dac: mode == "dac"}
 		if mode == "sym" {
 			g.links = 3
 		}
 		g.snap = w.snapshotEntries()
+		// The implementation side runs in its own goroutine (one hand-over per history, not per call: the
+		// main goroutine is locked to its thread for the oracle's per-thread identity); a call that does
+		// not return within the time limit is a DEADLOCK and ends the history.
+		type msg struct {
+			op, res string
+			done    bool
+		}
+		ch := make(chan msg, 2*hl+2)
+		go func() {
+			defer close(ch)
+			dummy := 0
+			for j := 0; j < hl; j++ {
+				op := g.op()
+				if strings.HasPrefix(op, "UM ") && mode == "admin" && j%3 != 0 {
+					continue
+				}
+				if !inUniverse(op) {
+					continue
+				}
+				if mode == "dac" && strings.HasPrefix(op, "RA ") {
+					// a non-administrator's RemoveAll stops at the first refusal in an unspecified order
+					continue
+				}
+				ch <- msg{op: op}
+				res := func() (r string) {
+					defer func() {
+						if recover() != nil {
+							r = "PANIC"
+						}
+					}()
+					return applySingle(w, strings.Fields(op), false, &dummy)
+				}()
+				if res == "PANIC" {
+					ch <- msg{op: op, res: res + " #-", done: true}
+					return
+				}
+				g.snap = w.snapshotEntries()
+				ch <- msg{op: op, res: res + showSnap("md5", g.snap), done: true}
+			}
+		}()
 		var ops, outs []string
-		dummy := 0
-		for j := 0; j < hl; j++ {
-			op := g.op()
-			if strings.HasPrefix(op, "UM ") && mode == "admin" && j%3 != 0 {
-				continue
+	collect:
+		for {
+			select {
+			case m, ok := <-ch:
+				if !ok {
+					break collect
+				}
+				if !m.done {
+					ops = append(ops, m.op)
+					continue
+				}
+				outs = append(outs, m.res)
+				o.count("op:" + opKind(m.op))
+				o.count("res:" + resKind(m.res))
+				o.distinct[opKind(m.op)+"/"+m.res] = struct{}{}
+			case <-time.After(5 * time.Second):
+				outs = append(outs, "DEADLOCK #-")
+				o.count("res:DEADLOCK")
+				break collect
 			}
-			if !inUniverse(op) {
-				continue
-			}
-			res := guarded(func() string { return applySingle(w, strings.Fields(op), false, &dummy) })
-			ops = append(ops, op)
-			o.count("op:" + opKind(op))
-			o.count("res:" + resKind(res))
-			if res == "DEADLOCK" || res == "PANIC" {
-				outs = append(outs, res+" #-")
-				break
-			}
-			// snapshot through the administrator's base view
-			g.snap = w.snapshotEntries()
-			sn := showSnap("md5", g.snap)
-			outs = append(outs, res+sn)
-			o.distinct[opKind(op)+"/"+resKind(res)+sn] = struct{}{}
+		}
+		if len(outs) < len(ops) {
+			ops = ops[:len(outs)]
 		}
 		lens += len(ops)
 		o.emit(hdr+" | "+strings.Join(ops, " | "), strings.Join(outs, " | "), "")
